@@ -17,7 +17,7 @@ func genC17(r *Rng, tier string, emit func(string, Tok)) {
 	muxGenAll(r, tier, muxMix{
 		random: scale(tier, 120, 600), maxLen: scale(tier, 60, 200),
 		wrap: scale(tier, 25, 300), bigPMT: scale(tier, 20, 200), many: scale(tier, 10, 100), readd: scale(tier, 15, 150), ood: scale(tier, 10, 100),
-		exhaustive: scale(tier, 4, 5), sweep: scale(tier, 0xf20, 0x10100),
+		exhaustive: scale(tier, 4, 5), sweep: scale(tier, 0xf20, 0x2100),
 	}, emit)
 }
 
